@@ -331,7 +331,7 @@ Qed.
 Lemma decode_opaque_not_int T f n j x : decode T f (TOpaque n) j = Some x -> match x with VInt _ => False | _ => True end.
 Proof. destruct f; cbn; [discriminate|]. destruct j; intros H; inversion H; subst; exact I. Qed.
 Lemma zero_opaque_not_int T f n : match zero_val T f (TOpaque n) with VInt _ => False | _ => True end.
-Proof. destruct f; cbn; exact I. Qed.
+Proof. destruct f; cbn; [exact I|]. destruct (String.prefix "iface:" n); exact I. Qed.
 Lemma to_opaque_fix n x : match x with VInt _ => False | _ => True end -> to_opaque n x = x.
 Proof. destruct x; cbn; try reflexivity. contradiction. Qed.
 
@@ -1088,4 +1088,133 @@ Proof.
     assert (E : forall g, encode T (S g) (TNamed n) (VJson j) = j) by (intros g; cbn [encode]; rewrite Hfs, Hc; reflexivity).
     rewrite E in Hd. cbn [decode] in Hd. rewrite Hfs in Hd. cbv zeta in Hd. rewrite Hc in Hd.
     assert (v' = VJson j) by (destruct j; congruence). subst v'. rewrite E. split; reflexivity.
+Qed.
+
+(* ================================================================================================ *)
+(* F. the generated graph                                                                            *)
+(* ================================================================================================ *)
+Lemma table_ok2_true : table_ok2 cfg_structs = true.
+Proof. vm_compute. reflexivity. Qed.
+
+Definition sd_meta : sdesc := mkS "v2.MetadataConfig" [mkF "MetaKey" "filter_metadata" false false false (TNamed "v2.LbMeta")] HkNone UkNone false.
+Definition sd_lbmeta : sdesc := mkS "v2.LbMeta" [mkF "LbMetaKey" "mosn.lb" false false false (TMap TAny)] HkNone UkNone false.
+Lemma find_meta : find_struct cfg_structs "v2.MetadataConfig" = Some sd_meta.
+Proof. vm_compute. reflexivity. Qed.
+Lemma find_lbmeta : find_struct cfg_structs "v2.LbMeta" = Some sd_lbmeta.
+Proof. vm_compute. reflexivity. Qed.
+
+(* string maps as lists of pairs *)
+Lemma all_strings_pairs es : all_strings es -> exists ks : list (string * string), es = map (fun ks => (fst ks, VStr (snd ks))) ks.
+Proof.
+  induction 1 as [|[k x] es [s Hs] _ [ks IH]]; [exists []; reflexivity|].
+  cbn in Hs. subst x es. exists ((k, s) :: ks). reflexivity.
+Qed.
+
+Lemma enc_any_strs f (ks : list (string * string)) :
+  map (fun kv : string * val => (fst kv, encode cfg_structs (S f) TAny (snd kv))) (map any_of_str (map (fun ks => (fst ks, VStr (snd ks))) ks))
+  = map (fun ks => (fst ks, JStr (snd ks))) ks.
+Proof. induction ks as [|[k s] ks IH]; cbn; [reflexivity|]. f_equal. exact IH. Qed.
+
+Lemma dec_any_strs f (ks : list (string * string)) :
+  sequence (map (fun kv : string * json => option_bind (decode cfg_structs (S f) TAny (snd kv)) (fun x => Some (fst kv, x)))
+                (map (fun ks => (fst ks, JStr (snd ks))) ks))
+  = Some (map any_of_str (map (fun ks => (fst ks, VStr (snd ks))) ks)).
+Proof. induction ks as [|[k s] ks IH]; cbn; [reflexivity|]. cbn in IH. rewrite IH. reflexivity. Qed.
+
+Lemma meta_rt_cfg : meta_rt cfg_structs.
+Proof.
+  unfold meta_rt. intros t Ht r e es Hstr fuel fuel' x Hff Hd.
+  destruct t as [| | | | |t'| | | | |]; try discriminate. destruct t' as [| | | |n| | | | | |]; try discriminate.
+  cbn in Ht. apply String.eqb_eq in Ht. subst n.
+  destruct (all_strings_pairs _ Hstr) as [ks0 Eks]. destruct ks0 as [|[k0 s0] ks0]; [discriminate Eks|].
+  remember ((k0, s0) :: ks0) as ks eqn:Eks1.
+  change (call_marshal_fn "metadataToConfig" (VRef r (e :: es)))
+    with (VRef 0 [("", VStruct [VStruct [VRef 0 (map any_of_str (e :: es))]])]) in *.
+  rewrite Eks in *. clear Eks Hstr e es.
+  set (m := map any_of_str (map (fun kz : string * string => (fst kz, VStr (snd kz))) ks)) in *.
+  (* enough fuel on the way out *)
+  destruct fuel as [|f1]; [discriminate Hff|]. cbn [encode] in Hff, Hd.
+  destruct f1 as [|f2]; [discriminate Hff|]. cbn [encode] in Hff, Hd. rewrite find_meta in Hff, Hd.
+  change (hook_compiled cfg_structs sd_meta) with CNone in Hff, Hd. cbn [enc_fields sd_meta s_fields f_skip f_omit f_embed f_json f_ty orb andb splice app] in Hff, Hd.
+  destruct f2 as [|f3]; [discriminate Hff|]. cbn [encode] in Hff, Hd. rewrite find_lbmeta in Hff, Hd.
+  change (hook_compiled cfg_structs sd_lbmeta) with CNone in Hff, Hd. cbn [enc_fields sd_lbmeta s_fields f_skip f_omit f_embed f_json f_ty orb andb splice app] in Hff, Hd.
+  destruct f3 as [|f4]; [discriminate Hff|]. cbn [encode] in Hff, Hd.
+  destruct f4 as [|f5].
+  { exfalso. unfold m in Hff. rewrite Eks1 in Hff. cbn in Hff. discriminate Hff. }
+  unfold m in Hd. rewrite enc_any_strs in Hd.
+  (* and back *)
+  destruct fuel' as [|g1]; [discriminate Hd|]. cbn [decode] in Hd.
+  destruct g1 as [|g2]; [discriminate Hd|]. cbn [decode] in Hd. rewrite find_meta in Hd. cbv zeta in Hd.
+  change (hook_compiled cfg_structs sd_meta) with CNone in Hd.
+  cbn [map sd_meta s_fields f_skip f_json f_ty lookup_member] in Hd. rewrite key_eq_refl in Hd.
+  destruct g2 as [|g3]; [discriminate Hd|]. cbn [decode] in Hd. rewrite find_lbmeta in Hd. cbv zeta in Hd.
+  change (hook_compiled cfg_structs sd_lbmeta) with CNone in Hd.
+  cbn [map sd_lbmeta s_fields f_skip f_json f_ty lookup_member] in Hd. rewrite key_eq_refl in Hd.
+  destruct g3 as [|g4]; [discriminate Hd|]. cbn [decode] in Hd.
+  destruct g4 as [|g5].
+  { exfalso. rewrite Eks1 in Hd. cbn in Hd. discriminate Hd. }
+  rewrite dec_any_strs in Hd. cbn in Hd. inversion Hd. reflexivity.
+Qed.
+
+(* ---- the boolean check decides well-formedness (soundness) *)
+Lemma forallb_strs es : forallb (fun kv : string * val => match snd kv with VStr _ => true | _ => false end) es = true -> all_strings es.
+Proof.
+  induction es as [|[k x] es IH]; cbn; intros H; [constructor|].
+  apply andb_true_iff in H. destruct H as [H1 H2]. constructor; [|apply IH; exact H2].
+  destruct x; try discriminate. cbn. eauto.
+Qed.
+
+Lemma wfb_sound T : forall fuel t v, wfb T fuel t v = true -> WF T t v.
+Proof.
+  induction fuel as [|f IH]; intros t v H; [discriminate|].
+  destruct v; cbn [wfb] in H; try (apply WF_leaf; [exact I|exact H]).
+  - (* struct *)
+    destruct t; try discriminate. destruct (find_struct T n) as [sd|] eqn:Efs; [|discriminate].
+    destruct (plain_struct sd) eqn:Ep.
+    + apply (WF_plain T n sd fs Efs Ep).
+      revert H. generalize (s_fields sd). induction fs as [|x fs IHfs]; intros fds H; destruct fds as [|fd fds]; try discriminate; [constructor|].
+      apply andb_true_iff in H. destruct H as [H1 H2]. constructor; [apply IH; exact H1|apply IHfs; exact H2].
+    + destruct (hook_out T sd (hook_compiled T sd) (VStruct fs)) as [[t2 w]|] eqn:Eo; [|discriminate].
+      apply andb_true_iff in H. destruct H as [H Hs]. apply andb_true_iff in H. destruct H as [H Hw].
+      apply andb_true_iff in H. destruct H as [Hl Hm]. apply Nat.eqb_eq in Hl. apply negb_true_iff in Hm.
+      apply (WF_hooked T n sd fs t2 w Efs Eo); try assumption; [|apply IH; exact Hw].
+      destruct (hook_compiled T sd) eqn:Eh; try discriminate; cbn [hook_side].
+      * unfold shadow_side. apply Forall_forall. intros [[i Hh] c] Hp. rewrite forallb_forall in Hs. specialize (Hs _ Hp). cbn beta iota in Hs.
+        destruct c; [exact I|]. intros h Hh'. rewrite Hh' in Hs.
+        destruct h; try discriminate; [left; reflexivity|right; eexists; eexists; split; [reflexivity|apply forallb_strs; exact Hs]].
+      * unfold chain_side. destruct (iget [ctxs] (VStruct fs)) as [[]|]; try discriminate. destruct es; [discriminate|]. eauto.
+      * unfold inline_side. destruct (iget [tgt; pathf] (VStruct fs)) as [[]|]; try discriminate. apply String.eqb_eq in Hs. subst. reflexivity.
+      * unfold listener_side. destruct (iget [addr] (VStruct fs)) as [[]|]; try discriminate.
+        destruct (iget [tgt; network] (VStruct fs)) as [[]|]; try discriminate.
+        apply andb_true_iff in Hs. destruct Hs as [Hs H3]. apply andb_true_iff in Hs. destruct Hs as [H1 H2].
+        apply negb_true_iff in H1. apply String.eqb_neq in H1. apply String.eqb_eq in H2.
+        exists coder, payload, s. repeat split; try assumption.
+        apply orb_true_iff in H3. destruct H3 as [H3|H3]; [apply orb_true_iff in H3; destruct H3 as [H3|H3]|]; apply String.eqb_eq in H3; auto.
+  - (* references *)
+    destruct t; try discriminate.
+    + destruct es as [|[k x] es]; [discriminate|]. destruct es; [|discriminate]. apply WF_ptr. apply IH. exact H.
+    + apply WF_slice. apply Forall_forall. intros kv Hin. rewrite forallb_forall in H. apply IH. apply H. exact Hin.
+    + apply WF_map. apply Forall_forall. intros kv Hin. rewrite forallb_forall in H. apply IH. apply H. exact Hin.
+  - (* JSON *)
+    destruct t; try (apply WF_leaf; [exact I|exact H]).
+    destruct (find_struct T n) as [sd|] eqn:Efs; [|discriminate].
+    destruct (hook_compiled T sd) eqn:Eh; try discriminate.
+    apply (WF_json T n sd j Efs Eh). intros ->. discriminate.
+Qed.
+
+Theorem roundtrip_full_cfg : forall fuel t v, WF cfg_structs t v -> ty_ok cfg_structs t = true ->
+  fuel_free (encode cfg_structs fuel t v) = true ->
+  forall fuel' v', decode cfg_structs fuel' t (encode cfg_structs fuel t v) = Some v' ->
+    encode cfg_structs fuel t v' = encode cfg_structs fuel t v /\ (is_empty v = false -> is_empty v' = false).
+Proof. exact (stable_full cfg_structs table_ok2_true meta_rt_cfg). Qed.
+
+Lemma example_full :
+  wfb cfg_structs 64 (TNamed "v2.MOSNConfig") w_cfg = true /\
+  ty_ok cfg_structs (TNamed "v2.MOSNConfig") = true /\
+  fuel_free (encode cfg_structs 64 (TNamed "v2.MOSNConfig") w_cfg) = true /\
+  (exists v', decode cfg_structs 64 (TNamed "v2.MOSNConfig") (encode cfg_structs 64 (TNamed "v2.MOSNConfig") w_cfg) = Some v') /\
+  json_eqb (encode cfg_structs 64 (TNamed "v2.MOSNConfig") w_cfg) w_doc = false.
+Proof.
+  split; [vm_compute; reflexivity|]. split; [vm_compute; reflexivity|]. split; [vm_compute; reflexivity|].
+  split; [eexists; vm_compute; reflexivity|vm_compute; reflexivity].
 Qed.
